@@ -81,7 +81,9 @@ def prog(env, case):
         weights['K'] = [(f1, w4 * w1), (f2, w4 * w2)]
     x0, x1 = Point(), Point()
     pts = [('x0', x0), ('x1', x1)]
-    if case.get('twin'):
+    if case.get('twin_only'):
+        pts = [('x0', x0), ('x0twin', 1 * x0)]  # a non-leaf Point object with the same decomposition as the leaf x0
+    elif case.get('twin'):
         pts.append(('x0twin', 1 * x0))        # another Point object with the same decomposition as x0
     ops = ['oracle', 'value'] + (['gradient'] if case.get('extended') else [])
     forced = list(case.get('forced', []))
@@ -204,6 +206,8 @@ def cases(tier):
     if tier == 'quick':
         for first in range(n_alpha):
             cs.append(dict(id="len3-first%02d" % first, length=3, forced=[first]))
+        for first in range(n_alpha):
+            cs.append(dict(id="twin3-first%02d" % first, length=3, forced=[first], twin_only=True))
     else:
         for first in range(n_alpha):
             for second in range(n_alpha + 1):
